@@ -45,8 +45,13 @@ def make_gate(path: str, name: str, args: list, nq: int):
         import inspect
 
         names = list(inspect.signature(fn).parameters)
-        conv = {n: (Float(a) if k == "f" else a) for n, a, k in zip(names, args, sig)}
-        return fn(**conv)
+        conv = [(n, (Float(a) if k == "f" else a)) for n, a, k in zip(names, args, sig)]
+        # keywords in signature order, reversed, or rotated (chosen by the arguments, so the case replays)
+        import zlib
+
+        h = zlib.crc32(repr((name, args)).encode()) % 3
+        conv = conv if h == 0 else (conv[::-1] if h == 1 else conv[1:] + conv[:1])
+        return fn(**dict(conv))
     if path == "parser":
         qs = ", ".join(f"q[{a}]" for a, k in zip(args, sig) if k == "q")
         ps = [a for a, k in zip(args, sig) if k != "q"]
